@@ -268,3 +268,53 @@ class GhostTransformPaint:
 
     def gettransform(self):
         return self.m
+
+
+# ---------------------------------------------------------------------------- ghost: gradients as svg._apply_gradient_paint sees them
+
+
+class GhostGradient(NamedTuple):
+    """a linear / radial gradient paint; `k` stands for all of its fields (geometry, stops,
+    extend).  apply_transform is summarised by what the proved contracts of
+    PaintLinearGradient / PaintRadialGradient.apply_transform establish: the result -- a
+    gradient, possibly wrapped in a residual transform -- draws the same picture."""
+
+    k: Any
+
+    def apply_transform(self, transform, check_overflows=True):
+        from vlib import ufn
+
+        has_residual = ufn("apply_transform_has_residual", "bool", self.k, tuple(transform))
+        k2 = ufn("apply_transform_gradient", "int", self.k, tuple(transform))
+        m = tuple(ufn(f"apply_transform_residual_{i}", "real", self.k, tuple(transform)) for i in range(6))
+        return GhostPlaced(has_residual, m, GhostGradient(k2))
+
+    def round(self, ndigits):
+        from vlib import ufn
+
+        return GhostGradient(ufn("gradient_round", "int", self.k, ndigits))
+
+
+class GhostPlaced(NamedTuple):
+    """result of GhostGradient.apply_transform: `paint` behind the residual affine `m` when
+    `has_residual`, else the gradient `paint` itself"""
+
+    has_residual: Any
+    m: Any
+    paint: Any
+
+    def gettransform(self):
+        from picosvg.svg_transform import Affine2D
+
+        return Affine2D(*self.m)
+
+    def round(self, ndigits):
+        return self.paint.round(ndigits)
+
+
+def ghost_is_transform(p):
+    return p.has_residual if kind(p) == "GhostPlaced" else False
+
+
+def ghost_cast(t, v):
+    return v
